@@ -4,6 +4,7 @@ package main
 
 import (
 	"go/token"
+	"strings"
 )
 
 type intrinsic func(f *Frame, st *execState, args []Val, pos token.Pos) Val
@@ -88,6 +89,16 @@ func init() {
 		reg("(binary.bigEndian).PutUint"+ws, false, put(w, true))
 	}
 
+	// math.Signbit: the top bit; a float32 widened to float64 keeps its sign
+	reg("math.Signbit", true, func(f *Frame, st *execState, args []Val, pos token.Pos) Val {
+		tb := f.e.tb
+		x := args[0].(Scalar).T
+		if x.op == "app" && strings.HasPrefix(x.name, "f32to64") && len(x.args) == 1 {
+			x = x.args[0]
+		}
+		w := x.sort.W
+		return Scalar{tb.Eq(tb.Extract(w-1, w-1, x), tb.ConstU(1, 1))}
+	})
 	// floats are opaque bit patterns: the bits<->float conversions are the identity
 	id := func(f *Frame, st *execState, args []Val, pos token.Pos) Val { return args[0] }
 	reg("math.Float64bits", true, id)
